@@ -6,6 +6,7 @@ From Coq Require Import ZArith List Bool Sorted.
 Import ListNotations.
 Require Import WnV.Base.Sx WnV.Model.Taxonomy WnV.Proofs.TaxSpec WnV.Proofs.TaxPaths
         WnV.Proofs.TaxReach WnV.Proofs.TaxAssembly.
+Require Import WnV.Proofs.AgendaProofs.
 
 (* (1) hypernym_paths(x) is the set of all maximal simple hypernym chains from x,
    for every graph (cycles, self-loops), each listed once *)
@@ -156,3 +157,56 @@ Example C13_nonvacuous :
   /\ lowest_common_hypernyms hyp 7 2%Z 3%Z false = Some [4]%Z.
 Proof. vm_compute. repeat split; reflexivity. Qed.
 Print Assumptions C13_nonvacuous.
+
+(* ---- the code computes hypernym paths with an agenda loop used as a stack (wn/_core.py relation_paths), not by recursion: the loop, transliterated literally (agenda_run_py pops the last element) yields exactly the paths of the recursive model, in the same order, and terminates on every finite graph; hence the loop itself satisfies the specification *)
+Theorem C13_relation_paths_loop_py_eq :
+  forall (hyp : node -> list node) (fuel : nat) (x : node),
+         relation_paths_loop_py hyp fuel x = relation_paths_loop hyp fuel x.
+Proof. exact (@relation_paths_loop_py_eq). Qed.
+Print Assumptions C13_relation_paths_loop_py_eq.
+
+Theorem C13_loop_refines_recursion :
+  forall (hyp : node -> list node) (f1 f2 : nat) (x : node) (ps1 ps2 : list (list node)),
+         relation_paths_loop hyp f1 x = Some ps1 -> relation_paths hyp f2 x = Some ps2 -> ps1 = ps2.
+Proof. exact (@loop_refines_recursion). Qed.
+Print Assumptions C13_loop_refines_recursion.
+
+Theorem C13_loop_py_refines_recursion :
+  forall (hyp : node -> list node) (f1 f2 : nat) (x : node) (ps1 ps2 : list (list node)),
+         relation_paths_loop_py hyp f1 x = Some ps1 ->
+         relation_paths hyp f2 x = Some ps2 -> ps1 = ps2.
+Proof. exact (@loop_py_refines_recursion). Qed.
+Print Assumptions C13_loop_py_refines_recursion.
+
+Theorem C13_loop_terminates :
+  forall (hyp : node -> list node) (V : list node) (x : node),
+         closed hyp V -> In x V -> exists fuel : nat, relation_paths_loop hyp fuel x <> None.
+Proof. exact (@loop_terminates). Qed.
+Print Assumptions C13_loop_terminates.
+
+Theorem C13_loop_spec :
+  forall (hyp : node -> list node) (fuel : nat) (x : node) (ps : list (list node)),
+         relation_paths_loop hyp fuel x = Some ps ->
+         forall p : list node, In p ps <-> p <> [] /\ maximal_simple hyp x p.
+Proof. exact (@loop_spec). Qed.
+Print Assumptions C13_loop_spec.
+
+(* ---- closure (a queue) lists exactly the nodes reachable in one or more steps, each once, and terminates *)
+Theorem C13_closure_loop_spec :
+  forall (hyp : node -> list node) (fuel : nat) (x : node) (l : list node),
+         closure_loop hyp fuel (hyp x) [] [] = Some l ->
+         NoDup l /\
+         (forall y : node,
+          In y l <-> (exists p : list node, p <> [] /\ chain hyp x p /\ last p x = y)).
+Proof. exact (@closure_loop_spec). Qed.
+Print Assumptions C13_closure_loop_spec.
+
+Theorem C13_closure_loop_terminates_bound :
+  forall (hyp : node -> list node) (V : list node) (x : node) (fuel : nat),
+         closed hyp V ->
+         NoDup V ->
+         length (hyp x) + length (concat (map hyp V)) <= fuel ->
+         closure_loop hyp fuel (hyp x) [] [] <> None.
+Proof. exact (@closure_loop_terminates_bound). Qed.
+Print Assumptions C13_closure_loop_terminates_bound.
+
